@@ -677,7 +677,8 @@ def tt_cp_apr_pdnr(  # noqa: PLR0912,PLR0913,PLR0915
 
             # Print outer iteration status.
             if (printitn > 0) and (divmod(iteration, printitn)[1] == 0):
-                fnVals[iteration] = -tt_loglikelihood(input_tensor, M)
+                # Evaluate on a copy: the likelihood re-normalizes its model argument
+                fnVals[iteration] = -tt_loglikelihood(input_tensor, M.copy())
                 print(
                     f"{iteration}. Ttl Inner Its: {nInnerIters[iteration]}, "
                     f"KKT viol = {kktViolations[iteration]}, obj = {fnVals[iteration]}"
@@ -1076,7 +1077,8 @@ def tt_cp_apr_pqnr(  # noqa: PLR0912,PLR0913,PLR0915
 
         # Print outer iteration status.
         if (printitn > 0) and (divmod(iteration, printitn)[1] == 0):
-            fnVals[iteration] = -tt_loglikelihood(input_tensor, M)
+            # Evaluate on a copy: the likelihood re-normalizes its model argument
+            fnVals[iteration] = -tt_loglikelihood(input_tensor, M.copy())
             print(
                 f"{iteration}. Ttl Inner Its: {nInnerIters[iteration]}, KKT viol = "
                 f"{kktViolations[iteration]}, obj = {fnVals[iteration]}, nz: {num_zero}"
